@@ -234,6 +234,7 @@ def check(spec, h=None):
         run_async(h.build())
         for old in spec.get("history") or ():  # the requests this engine served before (replay of a shrunk failure)
             run_async(h.engine.execute(print_document(old["doc"]).text, operation_name="Q", context=h.ctx_token, variables=core_unjson(copy.deepcopy(old["variables"]))))
+            h.scramble_live()
     h.reset_logs()
     printed = print_document(spec["doc"])
     variables = copy.deepcopy(spec["variables"])
